@@ -81,7 +81,7 @@ def fn_at_line(built, line):
     return None
 
 
-def run_unit(unit, variant, scratch, rlimit=None, seed=None, extra_tag=''):
+def run_unit(unit, variant, scratch, rlimit=None, seed=None, extra_tag='', only_fn=None):
     r = UnitRun(unit, variant)
     t0 = time.time()
     tmpl = os.path.join(VERIF, 'contracts', unit['template'])
@@ -105,10 +105,12 @@ def run_unit(unit, variant, scratch, rlimit=None, seed=None, extra_tag=''):
         cmd += ['--smt-option', o]
     if seed:
         cmd += ['--smt-option', 'smt.random_seed=%d' % seed, '--smt-option', 'sat.random_seed=%d' % seed]
+    if only_fn:
+        cmd += ['--verify-root', '--verify-function', only_fn.split('@')[0]]
     cmd += ['--', '--error-format=json']
     r.cmd = ' '.join(cmd)
     try:
-        p = subprocess.run(cmd, cwd=scratch, capture_output=True, text=True, timeout=unit.get('timeout', 900))
+        p = subprocess.run(cmd, cwd=scratch, capture_output=True, text=True, timeout=(150 if only_fn else unit.get('timeout', 900)))
     except subprocess.TimeoutExpired:
         r.status = 'undecided'
         r.reason = 'verus timeout'
@@ -387,14 +389,16 @@ def _check_property(prop, tier, seed, mine, scratch, findings, t0):
     # ---------------- retry definite failures once with a larger rlimit / different seed ----------------
     confirmed = []
     for r, e in violations:
-        r2 = run_unit(r.unit, r.variant, scratch, rlimit=(r.unit.get('rlimit', 60) * 3), seed=7 + seed, extra_tag='_retry')
+        r2 = run_unit(r.unit, r.variant, scratch, rlimit=r.unit.get('rlimit', 60), seed=7 + seed, extra_tag='_retry', only_fn=e['fn'])
         still = [x for x in r2.errors if x['fn'] == e['fn']]
-        if r2.status == 'fail' and any(x['definite'] for x in still):
-            confirmed.append((r, [x for x in still if x['definite']][0]))
-        elif r2.status == 'ok' or not still:
+        if r2.status == 'ok' and not still:
+            # the very same obligation verifies with more resources and another seed: an unstable proof, not a violation
             unstable.append('%s/%s::%s failed once and verified on retry (unstable proof)' % (r.unit['name'], r.variant, e['fn']))
+        elif any(x['definite'] for x in still):
+            confirmed.append((r, [x for x in still if x['definite']][0]))
         else:
-            undecided.append('%s/%s::%s: %s on retry' % (r.unit['name'], r.variant, e['fn'], still[0]['message']))
+            # the retry was inconclusive (timeout / rlimit): the definite failure of the first run stands
+            confirmed.append((r, e))
 
     # ---------------- thorough: extra seeds for stability ----------------
     stab = []
